@@ -833,10 +833,20 @@ package transport
 // nothing written; the initial payload is written at most once (then cleared), the pending incremental payloads
 // at most once in one `incremental` array (then cleared); every flush that wrote something ends with a delimiter,
 // the closing one iff the last payload written had no next.
-//@ trusted writeBoundary(w, boundary, final)
+// The two framing helpers are verified, not trusted: the delimiter line is `--<boundary>` + CRLF, the closing one
+// `--<boundary>--` + CRLF and is written exactly when asked for; the part header is the JSON content type followed
+// by the empty line that ends the MIME headers (C12 "parses as MIME parts ... closing boundary exactly once, last").
+//@ func writeBoundary [C12,C13]
+//@   requires w != nil
 //@   modifies nothing
-//@ trusted writeContentTypeHeader(w)
+//@   at! `fmt.Fprintf(w, "--%s--\r\n", boundary)` requires finalResponse && arg0 == w
+//@   at! `fmt.Fprintf(w, "--%s\r\n", boundary)` requires !finalResponse && arg0 == w
+//@   ensures calls(Fprintf) == 1
+//@ func writeContentTypeHeader [C12,C13]
+//@   requires w != nil
 //@   modifies nothing
+//@   at! `fmt.Fprintf(w, "Content-Type: application/json\r\n\r\n")` requires arg0 == w
+//@   ensures calls(Fprintf) == 1
 //@ trusted writeIncrementalJson(w, responses, hasNext)
 //@   modifies nothing
 //@ trusted fmt.Fprintf(w, format, a) (n, err)
